@@ -9,6 +9,92 @@ import (
 	"verifharness/internal/ringsim"
 )
 
+// writesDuringLeaveThatFails: L tries to leave, but every hand-over to its
+// successor S fails after 60 ms on the wire, so each of L's attempts keeps it
+// in state Leaving for a while and the leave is abandoned in the end: L stays
+// a member. All the time clients write keys of L's range through L's
+// predecessor. After the quiet period every key in every node's own store
+// must hash into that node's range.
+func writesDuringLeaveThatFails() (problem string) {
+	const (
+		P = uint64(1) << 44
+		L = uint64(2) << 44
+		S = uint64(3) << 44
+	)
+	r := newSimRing(ringsim.Config{Seed: 62, SlowMethod: "Import", SlowDelay: 60 * time.Millisecond})
+	defer r.net.Close()
+	if err := r.buildRing([]uint64{P, L, S}, func(i int) int { return 0 }); err != nil {
+		return "precondition: " + err.Error()
+	}
+	if _, c := r.settle(60, true, nil); c.Problem != "" {
+		return "precondition: " + c.Problem
+	}
+	r.fillLists(20)
+	var keys [][]byte
+	for i := 0; len(keys) < 12 && i < 1<<16; i++ {
+		k := []byte(fmt.Sprintf("leaving-range-%d", i))
+		if chord.Between(P, chord.Hash(k), L, true) {
+			keys = append(keys, k)
+		}
+	}
+	ctx := context.Background()
+	// L must have something to hand over, otherwise a leave makes no Import call
+	if err := retryKV(func() error { return r.members[P].Node.Put(ctx, keys[0], []byte("seed")) }); err != nil {
+		return "precondition: put: " + err.Error()
+	}
+	rule := r.net.AddRule(&ringsim.FaultRule{Method: "Import", Caller: L, Callee: S, Mode: ringsim.FailBefore, From: 1, To: 1 << 30})
+	leaveDone := make(chan struct{})
+	go func() { r.members[L].Node.Leave(); close(leaveDone) }()
+	writes := 0
+	for stop := false; !stop; {
+		for _, k := range keys[1:] {
+			select {
+			case <-leaveDone:
+				stop = true
+			default:
+			}
+			if stop {
+				break
+			}
+			// one attempt, no retry loop: a write either lands somewhere or is refused
+			if err := r.members[P].Node.Put(ctx, k, []byte("w")); err == nil {
+				writes++
+			} else if !chord.ErrorIsRetryable(err) {
+				r.net.ClearRules()
+				<-leaveDone
+				return fmt.Sprintf("Put(%q) through %d while %d was trying to leave failed non-retryably: %v", k, P, L, err)
+			}
+			time.Sleep(2 * time.Millisecond)
+		}
+	}
+	fired := r.net.RuleFired(rule)
+	r.net.ClearRules()
+	if st := r.members[L].Node.VerifState(); st != chord.Active {
+		return "precondition: the leave was not abandoned (node is " + st.String() + ")"
+	}
+	if fired == 0 {
+		return "precondition: no hand-over was attempted"
+	}
+	if _, c := r.settle(80, false, nil, false); c.Problem != "" {
+		return "precondition: not converged after the abandoned leave: " + c.Problem
+	}
+	live := r.live()
+	ids := liveIDs(live)
+	for i, m := range live {
+		ks, err := m.KV.Inner().RangeKeys(ctx, 0, 0)
+		if err != nil {
+			return "precondition: RangeKeys: " + err.Error()
+		}
+		pre := ids[(i-1+len(ids))%len(ids)]
+		for _, k := range ks {
+			if h := chord.Hash(k); !chord.Between(pre, h, m.ID, true) {
+				return fmt.Sprintf("node %d holds key %q (hash %d) outside its range (%d, %d] after %d abandoned its leave (%d hand-over attempts failed, %d writes were acknowledged meanwhile); ring %v", m.ID, k, h, pre, m.ID, L, fired, writes, ids)
+			}
+		}
+	}
+	return ""
+}
+
 // twoJoinersOneStallsAtPredecessorProbe: two nodes join into the same gap
 // (P, S). The request of the lower one, j2, is the first to reach S and stalls
 // at S's liveness probe of its predecessor (the Ping is held on the wire);
